@@ -660,6 +660,11 @@ class Executor:
             k = s[0]
             if k == 'assign':
                 v = self.eval_rvalue(st, s[2])
+                if s[2][0] == 'discr' and isinstance(v, Int) and not s[1][1]:
+                    # the discriminant has the type of the destination local (i8 for cmp::Ordering, isize by default)
+                    dty = fr.fn.locals.get(s[1][0], '').strip()
+                    if dty in INT_TYPES and dty != v.ty:
+                        v = int_cast(v, dty)
                 self.write_place(st, len(st.frames) - 1, s[1], v)
             elif k == 'setdiscr':
                 raise ExecError('SetDiscriminant unsupported in ' + fr.fn.name)
@@ -1223,7 +1228,13 @@ class Executor:
             if mid >= hi:
                 return mux(lo, hi, bit - 1)
             c = z3.Extract(bit, bit, bv) == z3.BitVecVal(1, 1)
-            return ite_value(c, mux(mid, hi, bit - 1), mux(lo, mid, bit - 1))
+            x, y = mux(mid, hi, bit - 1), mux(lo, mid, bit - 1)
+            try:
+                return ite_value(c, x, y)
+            except Unmergeable:
+                # elements without a term representation (string literals, references): a deferred choice that can be
+                # stored, passed to (disabled) logging or dropped; any code that inspects it stops with an ExecError
+                return Opaque('choice', (c, x, y))
         return mux(0, n, nbits - 1)
 
     def update(self, st, v, projs, i, nv):
@@ -1324,6 +1335,8 @@ class Executor:
     _int_re = re.compile(r'^(-?\d+)_(u8|u16|u32|u64|u128|usize|i8|i16|i32|i64|i128|isize)$')
     _flt_re = re.compile(r'^([-+]?(?:\d+\.?\d*(?:[eE][-+]?\d+)?|inf|NaN))(f32|f64)$')
 
+    _intconst_re = re.compile(r'^(?:core::|std::)?([iu](?:8|16|32|64|128|size))::(MAX|MIN|BITS)$')
+
     def _eval_const(self, st, text, fr):
         m = self._int_re.match(text)
         if m:
@@ -1350,6 +1363,14 @@ class Executor:
         sc = STD_CONSTS.get(text) or STD_CONSTS.get(text.replace('core::', 'std::'))
         if sc is not None:
             return mk_flt(sc[0], sc[1]), True
+        m = self._intconst_re.match(text)
+        if m and m.group(1) in INT_TYPES:
+            w, sg = INT_TYPES[m.group(1)]
+            if m.group(2) == 'BITS':
+                return Int('u32', w), True
+            if m.group(2) == 'MAX':
+                return Int(m.group(1), (1 << (w - 1)) - 1 if sg else (1 << w) - 1), True
+            return Int(m.group(1), -(1 << (w - 1)) if sg else 0), True
         if text.startswith('ZeroSized: '):
             t = text[11:].strip()
             if t.startswith('{closure@'):
@@ -1663,7 +1684,16 @@ def parse_callee(text):
         return info
     segs = [s for s in split_path(t) if s]
     gens = [s for s in segs if s.startswith('<')]
-    names = [strip_generic(s) for s in segs if not s.startswith('<')]
+    names = []
+    for sg in segs:
+        if sg.startswith('<impl ') and sg.endswith('>'):
+            # inherent method of a primitive: core::num::<impl u32>::rotate_left -> ...::u32::rotate_left
+            it = sg[6:-1].strip()
+            info['impl_ty'] = it
+            if it in INT_TYPES or it in FLOAT_TYPES or it in ('bool', 'char', 'str'):
+                names.append(it)
+        elif not sg.startswith('<'):
+            names.append(strip_generic(sg))
     info['path'] = '::'.join(names)
     info['method'] = names[-1]
     info['generics'] = gens[-1] if gens else None
